@@ -1499,3 +1499,191 @@ pub fn svcfaults(rng: &mut Rng) -> Program {
     c1.push(Op::Call { slot: base, script: vec![], cancel: None });
     g.prog
 }
+
+/// family "registry": concurrent histories of registry operations on 1-2 service types
+pub fn registry(rng: &mut Rng) -> Program {
+    let mut g = G::new(rng);
+    let nclients = g.rng.range(1, 4) as usize;
+    let ntypes = g.rng.range(1, 2) as u8;
+    let d1 = svc_default(1, g.rng);
+    let d2 = svc_default(2, g.rng);
+    g.prog.defaults = vec![d1, d2];
+    for k in 1..=2u8 {
+        let mut fresh = ActorDecl::plain(50 + k as u32);
+        fresh.k = k;
+        fresh.entry = Entry::Spawn;
+        fresh.at_setup = false;
+        fresh.holders = vec![];
+        g.prog.actors.push(fresh);
+    }
+    g.layout(nclients);
+    let budget = 14usize;
+    let mut used = 0usize;
+    for c in 0..nclients {
+        let mut nslots = g.sk[c].len() as u16;
+        // slots that (may) hold an address of type k
+        let mut held: Vec<(u16, u8)> = vec![];
+        let n = g.rng.range(1, 5) as usize;
+        for _ in 0..n {
+            if used >= budget {
+                break;
+            }
+            let k = g.rng.range(1, ntypes as u64) as u8;
+            let ops = &mut g.prog.clients[c];
+            match g.rng.below(12) {
+                0..=3 => {
+                    ops.push(Op::FromRegistry { k });
+                    ops.push(Op::Call { slot: nslots, script: vec![], cancel: None });
+                    held.push((nslots, k));
+                    nslots += 1;
+                    used += 1;
+                }
+                4 => {
+                    ops.push(Op::Setup { k });
+                    used += 1;
+                }
+                5 | 6 => {
+                    ops.push(Op::SpawnActor { decl: (k - 1) as u16 });
+                    ops.push(if g.rng.chance(3, 4) { Op::Register { slot: nslots } } else { Op::Replace { slot: nslots } });
+                    held.push((nslots, k));
+                    nslots += 2;
+                    used += 1;
+                }
+                7 => {
+                    ops.push(Op::Unregister { k });
+                    held.push((nslots, k));
+                    nslots += 1;
+                    used += 1;
+                }
+                8 => {
+                    ops.push(Op::TryFromRegistry { k });
+                    ops.push(Op::Call { slot: nslots, script: vec![], cancel: None });
+                    held.push((nslots, k));
+                    nslots += 1;
+                    used += 1;
+                }
+                9 => {
+                    ops.push(Op::AlreadyRunning { k });
+                    used += 1;
+                }
+                _ => {
+                    // terminate an instance we hold
+                    if let Some((s, _)) = held.last().copied() {
+                        match g.rng.below(3) {
+                            0 => ops.push(Op::Stop { slot: s }),
+                            1 => ops.push(Op::Send { slot: s, script: vec![PStep::CtxStop], cancel: None }),
+                            _ => ops.push(Op::Send { slot: s, script: vec![PStep::Panic], cancel: None }),
+                        }
+                        if g.rng.chance(1, 2) {
+                            ops.push(Op::Yield);
+                        }
+                    } else {
+                        ops.push(Op::AlreadyRunning { k });
+                        used += 1;
+                    }
+                }
+            }
+            match g.rng.below(6) {
+                0 => g.prog.clients[c].push(Op::Yield),
+                1 => {
+                    let d = g.rng.range(0, 2);
+                    g.prog.clients[c].push(Op::Sleep(d))
+                }
+                _ => {}
+            }
+        }
+        if g.rng.chance(1, 3) {
+            g.prog.clients[c].push(Op::DropAll);
+        }
+    }
+    g.prog
+}
+
+/// family "broker": 1-3 publishers, 1-4 subscribers, 1-2 topics, subscription changes and terminations racing publishes
+pub fn broker(rng: &mut Rng) -> Program {
+    let mut g = G::new(rng);
+    let nsubs = g.rng.range(1, 4) as usize;
+    let ntopics = g.rng.range(1, 2) as u8;
+    let npub = g.rng.range(1, 3) as usize;
+    g.prog.topics = (0..ntopics).collect();
+    // client 0 manages the subscribers; clients 1.. publish
+    let nclients = 1 + npub;
+    for i in 0..nsubs {
+        let mut a = ActorDecl::plain(1 + i as u32);
+        a.mailbox = if g.rng.chance(1, 3) { Some(g.rng.range(0, 2) as usize) } else { None };
+        a.entry = Entry::Builder;
+        a.holders = vec![0];
+        // some publishers publish through Context::publish of a subscriber actor they hold
+        for c in 1..nclients {
+            if g.rng.chance(1, 3) {
+                a.holders.push(c as u16);
+            }
+        }
+        if g.rng.chance(1, 2) {
+            let t = g.rng.below(ntopics as u64) as u8;
+            a.started.push(SStep::Subscribe(t));
+        }
+        a.aux_work = if g.rng.chance(1, 4) { g.rng.range(1, 2) } else { 0 };
+        g.prog.actors.push(a);
+    }
+    g.layout(nclients);
+    // client 0: subscription management
+    let k = g.rng.range(2, 8);
+    for _ in 0..k {
+        let s = g.rng.below(nsubs as u64) as u16;
+        let t = g.rng.below(ntopics as u64) as u8;
+        let alive = g.sk[0][s as usize].hk == Hk::Addr;
+        let op = match g.rng.below(12) {
+            0..=3 if alive => Op::SubscribeExt { slot: s, topic: t },
+            4 if alive => Op::Send { slot: s, script: vec![PStep::Subscribe(t)], cancel: None },
+            5 | 6 if alive => Op::Unsubscribe { slot: s, topic: t },
+            7 => Op::BrokerPing { topic: t },
+            8 if alive => {
+                g.sk[0][s as usize] = SK { hk: Hk::None, a: usize::MAX };
+                match g.rng.below(3) {
+                    0 => Op::Stop { slot: s },
+                    1 => Op::Drop { slot: s },
+                    _ => Op::Send { slot: s, script: vec![PStep::Panic], cancel: None },
+                }
+            }
+            9 => Op::Sleep(g.rng.range(0, 3)),
+            _ => Op::Yield,
+        };
+        g.prog.clients[0].push(op);
+    }
+    // publishers
+    for c in 1..nclients {
+        let n = g.rng.range(1, 5);
+        for _ in 0..n {
+            let t = g.rng.below(ntopics as u64) as u8;
+            let held = g.slots_of(c, |k| k.hk == Hk::Addr);
+            let op = match g.rng.below(8) {
+                0..=2 => Op::Publish { topic: t, via: Via::Static },
+                3 | 4 => Op::Publish { topic: t, via: Via::Addr },
+                5 => Op::Publish { topic: t, via: Via::Try },
+                6 if !held.is_empty() => {
+                    let s = *g.rng.pick(&held);
+                    Op::Call { slot: s, script: vec![PStep::Publish(t)], cancel: None }
+                }
+                _ => Op::Yield,
+            };
+            g.prog.clients[c].push(op);
+            if g.rng.chance(1, 4) {
+                g.prog.clients[c].push(Op::Sleep(g.rng.range(0, 2)));
+            }
+        }
+    }
+    // everybody ends with barriers on every topic before letting go of the subscribers
+    for c in 0..nclients {
+        g.prog.clients[c].push(Op::Sleep(g.rng.range(0, 3)));
+        for t in 0..ntopics {
+            g.prog.clients[c].push(Op::BrokerPing { topic: t });
+        }
+    }
+    // client 0 waits for the publishers (long sleep), pings again, then drops everything
+    g.prog.clients[0].push(Op::Sleep(40));
+    for t in 0..ntopics {
+        g.prog.clients[0].push(Op::BrokerPing { topic: t });
+    }
+    g.prog
+}
